@@ -748,6 +748,15 @@ OPS = [
     _op("gb_count_frame", lambda t: t["L"].groupby("b").count(), "groupby_agg", unordered=True),
     _op("gb_min_max", lambda t: t["L"].groupby("b").agg({"a": ["min", "max"], "c": "count"}), "groupby_agg", unordered=True),
     _op("gb_first_last", lambda t: t["L"].groupby("b").a.first() + t["L"].groupby("b").a.last(), "groupby_agg", unordered=True),
+    # a list selection fixes the column ORDER of the result (D100: mean/var/std used the frame's order)
+    _op("gb_slice_rev_mean", lambda t: t["L"].groupby("b")[["c", "a"]].mean(), "groupby_agg", unordered=True),
+    _op("gb_slice_rev_var", lambda t: t["L"].groupby("b")[["c", "a"]].var(), "groupby_agg", unordered=True),
+    _op("gb_slice_rev_sum", lambda t: t["L"].groupby("b")[["c", "a"]].sum(), "groupby_agg", unordered=True),
+    # covariance per group: complete columns, a column with missing values (pandas: pairwise complete observations),
+    # a list selection in another order than the frame's
+    _op("gb_cov_complete", lambda t: t["L"].assign(z=t["L"].a * t["L"].a % 5).groupby("b")[["a", "z"]].cov(), "groupby_agg", unordered=True),
+    _op("gb_cov_missing", lambda t: t["L"].groupby("b")[["a", "c"]].cov(), "groupby_agg", unordered=True),
+    _op("gb_cov_slice_rev", lambda t: t["L"].assign(z=t["L"].a * t["L"].a % 5).groupby("b")[["z", "a"]].cov(), "groupby_agg", unordered=True),
     _op("gb_size", lambda t: t["L"].groupby("b").size(), "groupby_agg", unordered=True),
     _op("gb_nunique", lambda t: t["L"].groupby("b").a.nunique(), "groupby_agg", unordered=True),
     _op("gb_str_key", lambda t: t["L"].groupby("k").v.sum(), "groupby_agg", table="T_str", unordered=True),
